@@ -1,7 +1,8 @@
 (* C07 — array data lives while referenced; only copy-construction and link share it.
    Model Storage.v (Storage.h; constructors, assignment, link, resize, clear, destructor of Array.h). *)
 From Coq Require Import ZArith List Bool Arith.
-From Adept Require Import Storage StorageProofs.
+From Adept Require Import Storage StorageProofs StorageGen.
+From AdeptGen Require Import Gen_Globals.
 Import ListNotations.
 Local Open Scope Z_scope.
 
@@ -46,3 +47,27 @@ Example C07_example :
   let st := srun 6 [[900;901;902;903]] ops in
   created st - deleted st = 1 /\ links (get_sto st 0) = 1 /\ plc (get_arr st 3) = PSto 0%nat /\ faults st = 0.
 Proof. vm_compute. repeat split. Qed.
+
+(* Tie G.  The link operations as read from Storage.h on every run (micro-steps of add_link / remove_link, the count a
+   constructor starts with), run by one thread, are the model's: add_link adds exactly one; remove_link on a count >= 1
+   does not throw, subtracts exactly one and deletes the object exactly when the result is zero (and on a count of zero it
+   throws and changes nothing); a new Storage starts with the generated initial count. *)
+Theorem C07_generated_link_operations : forall st s,
+  freed (get_sto st s) = false -> (s < length (stos st))%nat ->
+  (let o := get_sto (add_link st s) s in
+   links o = l_links (seq_run add_link_steps (links (get_sto st s))) /\ freed o = false /\ cells o = cells (get_sto st s)) /\
+  (1 <= links (get_sto st s) ->
+   let r := seq_run remove_link_steps (links (get_sto st s)) in
+   let o := get_sto (remove_link st s) s in
+   l_threw r = false /\ links o = l_links r /\ freed o = l_deleted r /\ cells o = cells (get_sto st s) /\
+   deleted (remove_link st s) = (if l_deleted r then deleted st + 1 else deleted st) /\
+   faults (remove_link st s) = faults st) /\
+  seq_run remove_link_steps 0 = mkL 0 false true /\
+  (forall n v, links (get_sto (fst (new_sto st n v)) (snd (new_sto st n v))) = initial_links).
+Proof.
+  intros st s Hf Hs.
+  exact (conj (model_add_link_is_generated st s Hf Hs)
+        (conj (model_remove_link_is_generated st s Hf Hs)
+        (conj (generated_remove_link 0) (model_new_storage_is_generated st)))).
+Qed.
+Print Assumptions C07_generated_link_operations.
